@@ -177,6 +177,7 @@ def gen_client_cases(ctx, thorough):
         cases.append(f'noconn {op} 2000 1')
         cases.append(f'shutdown {op} 1000 1')
         cases.append(f'qfull {op} 1000 1')
+        cases.append(f'shutdownq {op} 1000 1')
         cases.append(f'badparam {op} 2000 1 null')
     for op in READS:
         cases.append(f'badparam {op} 2000 0 zero')
@@ -296,6 +297,15 @@ def check_client(ctx, cases):
             model_expect.append(('Ok/failure:Shutdown', c, i))
             model_cases.append(f'("{rq}", env [] None false ChannelClosed [])')
             model_expect.append(('Shutdown/failure:Shutdown', c, i))
+        elif sc == 'shutdownq':
+            n_calls += 3
+            classes['shutdown-queued'] = classes.get('shutdown-queued', 0) + 1
+            want = 'Ok/failure:Shutdown;Ok/failure:Shutdown;Ok/failure:Shutdown;before=0;after-destroy=1/1/1'
+            if ffi != want:
+                fail('completion-on-shutdown-queued.' + rq, f'{rq}: runtime destroyed with one request in flight and two queued: got {ffi}; expected {want}', c, i, spec=want)
+            for _ in range(3):
+                model_cases.append(f'("{rq}", env [] None false Accepted [TDropEarly])')
+                model_expect.append(('Ok/failure:Shutdown', c, i))
         elif sc == 'qfull':
             n_calls += 3
             classes['queue-full'] = classes.get('queue-full', 0) + 1
@@ -439,7 +449,7 @@ def run(ctx):
     if authz_cases:
         ac, a_samples = check_authz(ctx, authz_cases)
     if not ctx.replay:
-        need = ['exception-standard', 'exception-raw', 'timeout', 'bad-response', 'bad-frame', 'io', 'ok', 'no-connection', 'shutdown', 'queue-full', 'states']
+        need = ['exception-standard', 'exception-raw', 'timeout', 'bad-response', 'bad-frame', 'io', 'ok', 'no-connection', 'shutdown', 'shutdown-queued', 'queue-full', 'states']
         missing = [k for k in need if cc.get(k, 0) < 1] + [f'{k}.{x}' for k in KINDS for x in ('success', 'standard', 'raw', 'unset') if sc.get(f'{k}.{x}', 0) < 1]
         if missing:
             ctx.oblige('generator-reaches-expected-classes', False, str(missing))
